@@ -45,6 +45,9 @@ SUCCESS_STATUSES = SUPPORTED_REDIRECT_STATUSES + (HTTPStatus.SWITCHING_PROTOCOLS
 
 CookieJar = SimpleCookieJar()
 
+# upper bound for the part of an error response body that is read for the exception
+_MAX_ERROR_BODY = 16384
+
 
 class handshake_response:
     def __init__(self, status: int, headers: dict, subprotocol):
@@ -142,10 +145,14 @@ def _get_resp_headers(sock, success_statuses: tuple = SUCCESS_STATUSES) -> tuple
     status, resp_headers, status_message = read_headers(sock)
     if status not in success_statuses:
         content_len = resp_headers.get("content-length")
-        if content_len:
-            response_body = sock.recv(
-                int(content_len)
-            )  # read the body of the HTTP error message response and include it in the exception
+        try:
+            body_len = int(content_len) if content_len else 0
+        except ValueError:
+            body_len = 0
+        if body_len > 0:
+            # read the body of the HTTP error message response and include it in the exception;
+            # the declared length is the peer's claim, never ask for more than one buffer
+            response_body = sock.recv(min(body_len, _MAX_ERROR_BODY))
         else:
             response_body = None
         raise WebSocketBadStatusException(
